@@ -11,3 +11,4 @@ def load_all():
     from . import obtain  # noqa
     from . import values  # noqa
     from . import arith  # noqa
+    from . import array  # noqa
